@@ -288,4 +288,21 @@ CHECKS = {
         quick=[R("^TestGeraMap$", 3000, 1, 300), R("^TestStageVisibility$", 600, 2, 300), R("^TestPrecedenceFixed$", 1, 1, 300), R("^TestPrecedence$", 25, 8, 900, shrinktime="90s")],
         thorough=[R("^TestGeraMap$", 100000, 2, 1500), R("^TestStageVisibility$", 15000, 4, 1500), R("^TestPrecedenceFixed$", 1, 1, 300), R("^TestPrecedence$", 300, 14, 3400, shrinktime="180s")],
     ),
+    "C15": dict(
+        pkg="./props/c15", bins=["./cmd/simcore"], level="exploration",
+        rule=("Grammar-generated workflow templates (aggregators, tasks, calls, an include of a second generated file; every role optionally an "
+              "iterator over a JSON range variable or begin/end with 0-4 elements, nested up to 4 deep; enabled expressions that evaluate to "
+              "true/false through variables, comparisons, padding and '1') loaded by two real cores -- all three concurrency switches on, and "
+              "all off -- and twice on the same core. Oracle: (i) the canonical dump of the loaded tree (role paths in order, task counts, "
+              "iteration and flag variables of every role) is identical across the three loads; (ii) it equals the output of a reference "
+              "expander (disabled roles and emptied aggregators absent, iterators expanded in range order, iteration variable bound per "
+              "instance); (iii) with a template error injected in a role that is instantiated (role name, enabled expression, iterator "
+              "range) the load fails on every core, no environment is listed and no task was launched. Non-trivial: >=1 iterator and >=1 "
+              "disabled role, or an injected error."),
+        assumptions=["an injected error in a role that is never instantiated (disabled ancestor, empty range) is not required to fail the load; such cases are counted inconclusive",
+                     "expansions are capped at 24 roles so that every load can be deployed"],
+        quick=[R("^TestLoadFixed$", 1, 1, 300), R("^TestLoad$", 12, 7, 900, shrinktime="30s")],
+        thorough=[R("^TestLoadFixed$", 1, 1, 300), R("^TestLoad$", 150, 7, 3400, shrinktime="180s")],
+        floors={"iterator": ("TestLoad", 0.5), "disabled-role": ("TestLoad", 0.4), "injected-error": ("TestLoad", 0.08)},
+    ),
 }
